@@ -8,6 +8,7 @@ from functools import lru_cache
 from gv import rules
 from gv.astutil import AnalysisError
 from gv.astutil import arg_or_kw
+from gv.astutil import as_update
 from gv.astutil import const_value
 from gv.astutil import dotted
 from gv.astutil import kwarg
@@ -20,6 +21,7 @@ from gv.astutil import stmts_of
 from gv.astutil import unparse
 from gv.astutil import walk_body
 from gv.cfg import cfg_of
+from gv.props.shared import expand_accessor
 from gv.effects import Write
 from gv.effects import property_aliases
 from gv.effects import writes_in
@@ -341,7 +343,9 @@ def _inplace_rebuild_ok(f: ast.AST, cfg, clear_call: ast.Call) -> bool:
     v = defs[0].value
     if isinstance(v, ast.Call) and dotted(v.func) in ("list", "tuple") and v.args:
         v = v.args[0]
-    if not isinstance(v, (ast.ListComp, ast.GeneratorExp)) or len(v.generators) != 1 or v.generators[0].ifs:
+    if isinstance(v, ast.Call) and dotted(v.func) == "dict" and v.args:
+        v = v.args[0]
+    if not isinstance(v, (ast.ListComp, ast.GeneratorExp, ast.DictComp)) or len(v.generators) != 1 or v.generators[0].ifs:
         return False
     if isinstance(v, ast.GeneratorExp) and v is defs[0].value:
         return False  # a lazy generator would be consumed after clear(): it must be materialised first
@@ -564,9 +568,9 @@ def check_index_shift(ctx: Ctx, view: View) -> None:
         con = cname(DSF, "DesignSpace", mname)
         cfg = cfg_of(f)
         # amount removed from dimension
-        dim = [s for s in stmts_of(f) if isinstance(s, ast.AugAssign) and dotted(s.target) == "self.dimension"]
-        ctx.need(len(dim) == 1 and isinstance(dim[0].op, ast.Sub), f"{mname}: `self.dimension -= <amount>` not found")
-        amount = dim[0].value
+        dim = [s for s in stmts_of(f) if as_update(s) and dotted(as_update(s)[0]) == "self.dimension"]
+        ctx.need(len(dim) == 1 and isinstance(as_update(dim[0])[1], ast.Sub), f"{mname}: `self.dimension -= <amount>` not found")
+        amount = as_update(dim[0])[2]
         stores = [s for s in stmts_of(f) if isinstance(s, ast.Assign) and len(s.targets) == 1 and isinstance(s.targets[0], ast.Subscript) and isinstance(s.targets[0].value, ast.Attribute) and s.targets[0].value.attr in n2i and _range_args(s.value)]
         ctx.need(stores, f"{mname}: no range store into __names_to_indices")
         # the loop variable bound to the old range
@@ -592,10 +596,21 @@ def check_index_shift(ctx: Ctx, view: View) -> None:
                 # guarded by the "name reached" flag: some dominating branch is a plain Name test set True in the == branch
                 flags = [cfg.ast[t].test.id for (t, v), bnode in cfg.branch.items() if v and cfg.dominates(bnode, sn) and isinstance(getattr(cfg.ast[t], "test", None), ast.Name)]
                 set_true = {t.id for x in stmts_of(f) if isinstance(x, ast.Assign) and isinstance(x.value, ast.Constant) and x.value.value is True for t in x.targets if isinstance(t, ast.Name)}
-                ctx.ob("2.5-later-only", con, any(fl in set_true for fl in flags), "only variables located after the edited one may be shifted (guard by the 'name reached' flag)", node=s)
+                later = any(fl in set_true for fl in flags)
+                if not later:
+                    # the same by position: old_range.start >= removed_range.stop, the removed range read from the map itself
+                    removed = {t.id for x in stmts_of(f) if isinstance(x, ast.Assign) and isinstance(x.value, (ast.Call, ast.Subscript)) and "__names_to_indices" in unparse(x.value) and ("pop(" in unparse(x.value) or isinstance(x.value, ast.Subscript)) for t in x.targets if isinstance(t, ast.Name)}
+                    for (t, v), bnode in cfg.branch.items():
+                        tst = getattr(cfg.ast[t], "test", None)
+                        if v and cfg.dominates(bnode, sn) and isinstance(tst, ast.Compare) and len(tst.ops) == 1 and isinstance(tst.ops[0], (ast.GtE, ast.Gt)):
+                            l_, r_ = tst.left, tst.comparators[0]
+                            if isinstance(l_, ast.Attribute) and l_.attr == "start" and same(l_.value, a0.value) and isinstance(r_, ast.Attribute) and r_.attr == ("stop" if isinstance(tst.ops[0], ast.GtE) else "start") and dotted(r_.value) in removed:
+                                later = True
+                ctx.ob("2.5-later-only", con, later, "only variables located after the edited one may be shifted (guard by the 'name reached' flag)", node=s)
         if mname == "remove_variable":
             size_defs = [s for s in stmts_of(f) if isinstance(s, ast.Assign) and isinstance(amount, ast.Name) and any(isinstance(t, ast.Name) and t.id == amount.id for t in s.targets)]
-            ok = bool(size_defs) and all(isinstance(s.value, ast.Attribute) and s.value.attr == "size" and isinstance(s.value.value, ast.Subscript) and dotted(s.value.value.value) == "self._variables" for s in size_defs)
+            vals = [expand_accessor(ctx.index, ds, s.value) for s in size_defs]
+            ok = bool(size_defs) and all(isinstance(v_, ast.Attribute) and v_.attr == "size" and isinstance(v_.value, ast.Subscript) and dotted(v_.value.value) == "self._variables" for v_ in vals)
             ctx.ob("2.5-amount", con, ok, "the amount removed must be the size of the removed variable", node=(size_defs or [dim[0]])[0])
     # add_variable: range(dimension, dimension + size) read before dimension += size
     f = ctx.index.method(DSF, "DesignSpace", "add_variable")
